@@ -66,6 +66,9 @@ def gen_plan(seed, i, tier):
     steps = []
     for _ in range(rng.range(1, 4)):
         steps.append({'op': 'Clone', 'shape': rng.below(8)})
+        if rng.chance(0.2):
+            steps.append({'op': 'DeleteClone'})                 # the clone is removed again; cloning goes on
+            steps.append({'op': 'Clone', 'shape': rng.below(8)})
         if rng.chance(0.3):
             steps.append({'op': 'RestartDst', 'raw': rng.chance(0.7)})
         if rng.chance(0.2):
